@@ -216,10 +216,8 @@ def writer_rows(tier: str, seed: int) -> list[dict]:
     for ms in [0, 1, 999, 1000, 1716899460123, 253402300799999, 253402300799000, 4102444800001] + \
             [rng.randrange(0, 253402300800000) for _ in range(300)]:
         v = project.EPOCH + datetime.timedelta(milliseconds=ms)
-        if rng.random() < 0.3:
+        if rng.random() < 0.3 and 86400000 < ms < 253402300799999 - 86400000:
             v = v.astimezone(datetime.timezone(datetime.timedelta(hours=rng.choice([-11, -3, 2, 5, 9]), minutes=30)))
-            if ms > 253402300799999 - 86400000 or ms < 86400000:
-                v = project.EPOCH + datetime.timedelta(milliseconds=ms)
         add("write_datetime_i64", aint(ms), lambda s, v=v: w.write_datetime_i64(s, v))
         add("write_nullable_datetime_i64", aint(ms), lambda s, v=v: w.write_nullable_datetime_i64(s, v))
     add("write_nullable_datetime_i64", NULL, lambda s: w.write_nullable_datetime_i64(s, None))
